@@ -1207,3 +1207,20 @@ pub fn flip_table_byte(options: &DbOptions, n: u64, offset: usize) -> bool {
         Err(_) => false,
     }
 }
+
+/// `VersionSet::compact_range(level, begin..end)` on a version set whose current version holds `levels`.
+/// Returns the numbers of the level-L inputs and of the level-L+1 inputs (None: no compaction necessary).
+pub fn compact_range_scenario(
+    options: DbOptions,
+    levels: &[(usize, Vec<VFile>)],
+    level: usize,
+    begin: Option<(Vec<u8>, u64)>,
+    end: Option<(Vec<u8>, u64)>,
+) -> Option<(Vec<u64>, Vec<u64>)> {
+    let (guarded, _tc) = vset_with(&options, levels);
+    let mut g = guarded.lock();
+    let key = |k: Option<(Vec<u8>, u64)>| k.map(|(u, s)| InternalKey::new(u, s, Operation::Put));
+    let cm = g.version_set.compact_range(level, key(begin)..key(end))?;
+    let nums = |fs: &[Arc<FileMetadata>]| fs.iter().map(|f| f.file_number()).collect::<Vec<u64>>();
+    Some((nums(cm.get_compaction_level_files()), nums(cm.get_parent_level_files())))
+}
